@@ -404,8 +404,10 @@ class _Flow:
     def stores_in(self, stmts):
         out = set()
         for st in stmts:
+            # an augmented assignment binds nothing that was not bound before it
+            aug = {id(x.target) for x in ast.walk(st) if isinstance(x, ast.AugAssign)}
             for x in ast.walk(st):
-                if isinstance(x, ast.Name) and isinstance(x.ctx, ast.Store):
+                if isinstance(x, ast.Name) and isinstance(x.ctx, ast.Store) and id(x) not in aug:
                     out.add(x.id)
                 elif isinstance(x, (ast.FunctionDef, ast.AsyncFunctionDef, ast.ClassDef)):
                     out.add(x.name)
